@@ -46,6 +46,7 @@ func after(e *hist.Engine, h *hist.History) {
 func TestModel(t *testing.T) {
 	rapid.Check(t, func(t *rapid.T) {
 		cfg := hist.Cfg{Observers: true, Methods: []string{"GET", "POST", "PATCH", "FOO"}}
+		cfg.QuietTxn = gen.Chance(t, 1, 2, "quietTxn")
 		g := hist.GenCfg{Txn: true, Managed: true, MaxBody: 4}
 		hist.RunRapid(t, "history", cfg, g, after)
 	})
